@@ -448,3 +448,33 @@ func genesisFuncs(c *Ctx, kind, m string) map[*ssa.Function]bool {
 	}
 	return set
 }
+
+// iterEndBounds is rule A11.iter-end-bound: a raw store iterator (Iterator / ReverseIterator with explicit
+// bounds) must not be given an ordinary key as its end: the end bound is exclusive, so the record stored
+// under that very key is silently left out (e.g. "scan up to the last recorded height" never sees the last
+// record). Accepted ends: nil (whole prefix store) and PrefixEndBytes(...) of a prefix. Returns (sites, bad).
+func iterEndBounds(c *Ctx, rule string, fs []*ssa.Function, report bool) (int, int) {
+	w, r := c.W, c.R
+	n, bad := 0, 0
+	for _, f := range fs {
+		for _, e := range w.EffectsOf(f) {
+			if e.Kind != "StoreIter" || (e.Method != "Iterator" && e.Method != "ReverseIterator") || e.Via != nil {
+				continue
+			}
+			args := e.Call.Common().Args
+			if len(args) < 2 {
+				continue
+			}
+			n++
+			end := w.Expand(w.ExprOf(args[len(args)-1]), 2)
+			ok := end.Op == "const" && end.Name == "nil" || end.Op == "zero" || end.Any(func(x *ir.Expr) bool { return x.Op == "call" && strings.HasSuffix(x.Name, "PrefixEndBytes") })
+			if !ok {
+				bad++
+			}
+			if report {
+				r.Require(ok, rule, fn(f)+"|"+e.Method, pos(c, e.Site), "a raw store iterator ends at nil or at PrefixEndBytes(prefix), never at an ordinary key (the end bound is exclusive)", "end bound "+end.String())
+			}
+		}
+	}
+	return n, bad
+}
